@@ -1,4 +1,5 @@
 import SSV.Proofs.Persist
+import SSV.Proofs.PersistGen
 import SSV.Proofs.Debounce
 /-
 C20 — A crash or write failure while saving credentials never destroys the store.
@@ -105,6 +106,63 @@ theorem save_completes {U : Type} (C : Codec U) (hC : C.Lawful) (old new : U)
   have he : (finalRun (C.ser new) none none progTempRename 0 (startRun (initFS (C.ser old)))).err = false := by
     simp [finalRun, progTempRename, enabled, faultAt, execOp, execOk, writeBytes, upd, startRun, initFS]
   exact ⟨he, by rw [h.1 he]; exact load_ser C hC new⟩
+
+/-! ### every save of every history, from any file system -/
+
+/-- **crash_safe, any start state.** Not only from the two-file toy directory: from ANY file system in
+which the store path names a synced file with the old document and that entry is on stable storage
+(arbitrary other inodes, stale temporary files left by earlier crashes, any temp-name counter), with or
+without one failing call: at every instant a power loss leaves the old or the new set. -/
+theorem crash_safe_any_start {U : Type} (C : Codec U) (hC : C.Lawful) (old new : U)
+    (prog : List Stmt) (hp : saveProg? = some prog) (fs0 : FS) (hq : Quiescent fs0 (C.ser old)) (fault : Fault) :
+    ∀ fs ∈ trace (C.ser new) fault prog 0 (startRun fs0),
+      ∀ c, PostCrash fs c → load C c = some old ∨ load C c = some new := by
+  have : prog = progTempRename := by
+    have := hp.symm.trans saveProg_is_tempRename; exact Option.some.inj this
+  subst this
+  intro fs hfs c hc
+  rcases trace_tempRename_safe_gen fs0 (C.ser old) (C.ser new) hq fault fs hfs c hc with h | h
+  · left; rw [h]; exact load_ser C hC old
+  · right; rw [h]; exact load_ser C hC new
+
+/-- **every save of a history (process kill / write errors).** After any history of saves — each writing any
+document, each with or without a failing call (the write after any byte count) — from any file system whose
+store path shows the set `u0`: at every instant of the next save (again with any failing call) a process
+kill leaves the store path readable as exactly the set of the last save that reported success, or the new
+set. The directory may contain whatever the history left behind. -/
+theorem kill_safe_history {U : Type} (C : Codec U) (hC : C.Lawful) (u0 new : U)
+    (prog : List Stmt) (hp : saveProg? = some prog) (fs0 : FS) (h0 : afterKill fs0 = some (C.ser u0))
+    (hist : List (U × Fault)) (fault : Fault) :
+    let docs := hist.map (fun p => (C.ser p.1, p.2))
+    ∃ prev, (prev = u0 ∨ prev ∈ hist.map (·.1)) ∧
+      C.ser prev = lastSaved prog fs0 (C.ser u0) docs ∧
+      ∀ fs ∈ trace (C.ser new) fault prog 0 (startRun (runSaves prog fs0 docs)),
+        load C (afterKill fs) = some prev ∨ load C (afterKill fs) = some new := by
+  have : prog = progTempRename := by
+    have := hp.symm.trans saveProg_is_tempRename; exact Option.some.inj this
+  subst this
+  intro docs
+  have hk := history_kq fs0 (C.ser u0) docs h0
+  have hm := lastSaved_mem progTempRename fs0 (C.ser u0) docs
+  have hprev : ∃ prev, (prev = u0 ∨ prev ∈ hist.map (·.1)) ∧ C.ser prev = lastSaved progTempRename fs0 (C.ser u0) docs := by
+    rcases hm with h | h
+    · exact ⟨u0, Or.inl rfl, h.symm⟩
+    · simp only [docs, List.map_map, List.mem_map] at h
+      obtain ⟨p, hp1, hp2⟩ := h
+      exact ⟨p.1, Or.inr (List.mem_map.mpr ⟨p, hp1, rfl⟩), by simpa using hp2⟩
+  obtain ⟨prev, hpm, hps⟩ := hprev
+  refine ⟨prev, hpm, hps, ?_⟩
+  intro fs hfs
+  rw [← hps] at hk
+  rcases kill_tempRename_gen _ (C.ser prev) (C.ser new) hk fault fs hfs with h | h
+  · left; rw [h]; exact load_ser C hC prev
+  · right; rw [h]; exact load_ser C hC new
+
+example (d : Bytes) : Quiescent (initFS d) d := quiescent_init d
+/-- a start state with an unrelated inode, a stale temporary file and an advanced counter -/
+example : Quiescent
+    ({ inodes := [⟨[9], false⟩, ⟨[1, 0], true⟩, ⟨[1, 1], false⟩], target := some 1, thist := [some 1], tmps := [(4, 2)], next := 7 } : FS)
+    [1, 0] := ⟨1, rfl, rfl, rfl⟩
 
 /-! ### the hypotheses are satisfiable, the quantifiers range over something -/
 
@@ -231,6 +289,8 @@ end SSV.C20
 #print axioms SSV.C20.kill_safe
 #print axioms SSV.C20.enospc_safe
 #print axioms SSV.C20.save_completes
+#print axioms SSV.C20.crash_safe_any_start
+#print axioms SSV.C20.kill_safe_history
 #print axioms SSV.C20.toy_lawful
 #print axioms SSV.C20.ack_saved_before_stop
 #print axioms SSV.C20.exit_only_after_cancel
